@@ -4,6 +4,7 @@ package main
 
 import (
 	"fmt"
+	"os"
 	"go/token"
 	"go/types"
 	"strings"
@@ -28,6 +29,7 @@ type frame struct {
 	panicVal  Val
 	result    Val
 	caller    *frame
+	sp, dep   int
 }
 
 type deferred struct {
@@ -66,6 +68,8 @@ type Exec struct {
 	fnHits   map[*ssa.Function]int
 	opaqueN  int
 	ptrIDs   map[*Val]int
+	stack    []*ssa.Function
+	trace    string
 	obs      []obsRec
 }
 
@@ -287,7 +291,12 @@ func (ex *Exec) intBin(op token.Token, x, y Int, signed bool) Val {
 
 // runtimeError builds the panic value of a Go run-time error.
 func (ex *Exec) runtimeError(msg string) Val {
-	return iface{t: ex.env.runtimeErrorT, v: "runtime error: " + msg}
+	p := new(Val)
+	if os.Getenv("GOSYM_TRACE") != "" {
+		msg += " @" + ex.stackString()
+	}
+	*p = structure{"runtime error: " + msg}
+	return iface{t: ex.env.runtimeErrorT, v: p}
 }
 
 // ---- equality
@@ -887,7 +896,8 @@ func (ex *Exec) call(fn *ssa.Function, args []Val, env []Val, caller *frame) Val
 	if ex.depth > 3000 {
 		panic(fuelOut{"call depth"})
 	}
-	fr := &frame{cf: cf, regs: make([]Val, cf.nslots), caller: caller}
+	ex.stack = append(ex.stack, fn)
+	fr := &frame{cf: cf, regs: make([]Val, cf.nslots), caller: caller, sp: len(ex.stack), dep: ex.depth}
 	for i, s := range cf.params {
 		fr.regs[s] = args[i]
 	}
@@ -897,6 +907,7 @@ func (ex *Exec) call(fn *ssa.Function, args []Val, env []Val, caller *frame) Val
 	fr.block = cf.blocks[0]
 	r := ex.runFrame(fr)
 	ex.depth--
+	ex.stack = ex.stack[:len(ex.stack)-1]
 	return r
 }
 
@@ -921,6 +932,9 @@ func (ex *Exec) runFrame(fr *frame) (res Val) {
 		if r := recover(); r != nil {
 			gp, ok := r.(goPanic)
 			if !ok {
+				if ex.trace == "" {
+					ex.trace = ex.stackString()
+				}
 				panic(r)
 			}
 			fr.panicking = true
@@ -928,8 +942,15 @@ func (ex *Exec) runFrame(fr *frame) (res Val) {
 			ex.runDefers(fr)
 			if fr.panicking {
 				ex.depth--
+				if ex.trace == "" {
+					ex.trace = ex.stackString()
+				}
+				ex.stack = ex.stack[:len(ex.stack)-1]
 				panic(goPanic{fr.panicVal})
 			}
+			ex.trace = ""
+			ex.stack = ex.stack[:fr.sp]
+			ex.depth = fr.dep
 			// recovered
 			if fr.cf.recover != nil {
 				fr.block = fr.cf.recover
@@ -1552,19 +1573,20 @@ func (ex *Exec) decodeRuneAt(s Val, pos int) (Int, int) {
 
 func (ex *Exec) slice(fr *frame, ci *cinstr, in *ssa.Slice) Val {
 	x := ex.op(fr, &ci.ops[0])
-	get := func(i int) (Int, bool) {
+	get := func(i int, sv ssa.Value) (Int, bool) {
 		if ci.ops[i].slot == -2 {
 			return Int{}, false
 		}
 		v := ex.op(fr, &ci.ops[i]).(Int)
 		if v.W != 64 {
-			v = ex.conv64(v, true)
+			_, sg, _ := intInfo(sv.Type())
+			v = ex.conv64(v, sg)
 		}
 		return v, true
 	}
-	lo, hasLo := get(1)
-	hi, hasHi := get(2)
-	mx, hasMax := get(3)
+	lo, hasLo := get(1, in.Low)
+	hi, hasHi := get(2, in.High)
+	mx, hasMax := get(3, in.Max)
 	switch xv := x.(type) {
 	case string, symstr:
 		b := strBytes(x)
@@ -1647,4 +1669,13 @@ func (ex *Exec) typeAssert(in *ssa.TypeAssert, xval Val) Val {
 		return tuple{v, Bool{C: ok}}
 	}
 	return v
+}
+
+func (ex *Exec) stackString() string {
+	var sb strings.Builder
+	n := len(ex.stack)
+	for i := n - 1; i >= 0 && i >= n-8; i-- {
+		sb.WriteString(" < " + ex.stack[i].Name())
+	}
+	return sb.String()
 }
